@@ -390,6 +390,11 @@ struct Dumper {
 			OS << "null";
 			return;
 		}
+		if (I->getType()->isPointerType() && !I->isValueDependent() &&
+		    I->isNullPointerConstant(Ctx, Expr::NPC_ValueDependentIsNotNull) != Expr::NPCK_NotNull) {
+			OS << "{\"null\":1}";
+			return;
+		}
 		I = I->IgnoreParenImpCasts();
 		if (auto *IL = dyn_cast<InitListExpr>(I)) {
 			OS << "[";
